@@ -28,7 +28,7 @@ class C17(PureCheck):
     def design_runs(self, tier):
         cfg = ("SPECIFICATION Spec\nCONSTANT MaxLen = %d\nINVARIANT StripKeepsMustKeep\nINVARIANT ParserModelMeetsC17\nCHECK_DEADLOCK FALSE\n"
                % (4 if tier == "quick" else 5))
-        return []  # [dict(module="MC_Scan", cfg=cfg, workers=12, timeout=3000)]
+        return [dict(module="MC_Scan", cfg=cfg, workers=12, timeout=3000)]
 
     def inputs(self, tier, rng):
         depth = 4 if tier == "quick" else 5
